@@ -65,7 +65,9 @@ def main(argv):
     pool_nodes = [("node%d.abc.cache.amazonaws.com" % i, "10.0.%d.%d" % (i // 3, 10 + i), 11211 + (i % 2)) for i in range(9)]
     # "any cluster configuration the endpoint advertises": host names are not always *.amazonaws.com (private zones, single labels, long TLDs)
     pool_nodes += [("cache-1.prod.internal", "10.9.0.1", 11211), ("memcached-4", "10.9.0.2", 11212), ("node.example.localdomain", "172.16.200.7", 11300),
-                   ("UPPER.Case.Example", "192.168.1.250", 11211)]
+                   ("UPPER.Case.Example", "192.168.1.250", 11211),
+                   # several nodes behind one address, told apart by their ports only (NAT, localhost test clusters)
+                   ("shared.abc.cache.amazonaws.com", "10.7.7.7", 11211), ("shared.abc.cache.amazonaws.com", "10.7.7.7", 11212), ("shared.abc.cache.amazonaws.com", "10.7.7.7", 11213)]
     keys = ["key%d" % i for i in range(60)]
     lines, metas = [], []
     ncase = 0
